@@ -196,6 +196,9 @@ MODULE_NAMES = {'commands', 'queries', 'helpers', 'manager', 'liquidity', 'swap'
                 'crate', 'error', 'update_config'}
 
 
+ITER_ADAPTERS = {'position', 'any', 'all', 'find'}
+
+
 class Rewriter:
     """Applies the rewrite rules to the token list of one item and records each firing."""
 
@@ -254,13 +257,22 @@ class Rewriter:
 
         while k < n:
             t = toks[k]
+            # R16b: `[mantra_dex_std::]farm_manager::Name` -> `FmName` (avoids the ExecuteMsg/QueryMsg name clash)
+            ppr = self.unit.get('path_prefix_renames', {})
+            if is_id(t) and t.text in ppr and nxt(k) < n and is_p(toks[nxt(k)], '::'):
+                j = nxt(nxt(k))
+                if j < n and is_id(toks[j]) and toks[j].text[:1].isupper():
+                    self.rec('R16', t.text + '::' + toks[j].text, ppr[t.text] + toks[j].text)
+                    out.append(T('ident', ppr[t.text] + toks[j].text, t.start))
+                    k = j + 1
+                    continue
             # R16: strip in-crate / mantra-dex-std module paths (everything is one flat namespace)
-            if is_id(t) and t.text in MODULE_NAMES and nxt(k) < n and is_p(toks[nxt(k)], '::'):
+            if is_id(t) and t.text in MODULE_NAMES and t.text not in ppr and nxt(k) < n and is_p(toks[nxt(k)], '::'):
                 p = prv_out()
                 if p is None or not is_p(p, '::'):
                     j = k
                     segs = []
-                    while j < n and is_id(toks[j]) and toks[j].text in MODULE_NAMES and nxt(j) < n and is_p(toks[nxt(j)], '::'):
+                    while j < n and is_id(toks[j]) and toks[j].text in MODULE_NAMES and toks[j].text not in ppr and nxt(j) < n and is_p(toks[nxt(j)], '::'):
                         segs.append(toks[j].text)
                         j = nxt(nxt(j))
                     if j < n and is_id(toks[j]):
@@ -314,6 +326,19 @@ class Rewriter:
                 self.rec('R5', '.to_owned()', '.clone()')
                 k += 1
                 continue
+            # R5: `.iter().position(` -> `.iter_position(` etc. (verified helpers in shim/iter.rs)
+            if is_id(t, 'iter') and prv_out() is not None and is_p(prv_out(), '.'):
+                a = nxt(k)
+                if a < n and is_p(toks[a], '('):
+                    bq = nxt(a)
+                    if bq < n and is_p(toks[bq], ')'):
+                        c = nxt(bq)
+                        d = nxt(c) if c < n else n
+                        if c < n and is_p(toks[c], '.') and d < n and is_id(toks[d]) and toks[d].text in ITER_ADAPTERS:
+                            out.append(T('ident', 'iter_' + toks[d].text, t.start))
+                            self.rec('R5', '.iter().%s(' % toks[d].text, '.iter_%s(' % toks[d].text)
+                            k = d + 1
+                            continue
             # .add_attributes(ARGS) / .add_attribute(ARGS): argument dropped (R15)
             if is_id(t) and t.text in ('add_attributes', 'add_attribute') and prv_out() is not None and is_p(prv_out(), '.'):
                 b = nxt(k)
